@@ -34,6 +34,7 @@ struct Gen<'a> {
     sizes: Vec<Size>,
     rec: Option<u16>,
     pat4k: bool,
+    pat_huge: bool,
     fail_rate: u64,
     flag_density: u64,
 }
@@ -136,6 +137,10 @@ impl<'a> Gen<'a> {
         if size == Size::K4 && self.pat4k && self.rng.chance(30) {
             f |= 0x80;
         }
+        // PAT_HUGE_PAGE (bit 12) is a leaf flag of 2 MiB / 1 GiB entries only
+        if size != Size::K4 && self.pat_huge && self.rng.chance(40) {
+            f |= 0x1000;
+        }
         f
     }
 
@@ -164,7 +169,7 @@ impl<'a> Gen<'a> {
 
 pub fn gen_replay(seed: u64, focus: &str) -> Replay {
     let mut rng = Rng::new(seed ^ 0x5eed_0000_0000_0000);
-    let view = match rng.weighted(&[40, 40, 20]) {
+    let view = match if focus == "C20" { 2 } else { rng.weighted(&[40, 40, 20]) } {
         0 => {
             let lo = 176u64 << 39;
             let room = (64u64 << 39) - (1 << 44);
@@ -227,7 +232,8 @@ pub fn gen_replay(seed: u64, focus: &str) -> Replay {
     let fail_rate = *rng.pick(&[0u64, 5, 30]);
     let flag_density = *rng.pick(&[10u64, 35, 60]);
     let pat4k = rng.chance(10);
-    let mut g = Gen { rng: &mut rng, zones, pages: vec![], frames: vec![], sizes, rec, pat4k, fail_rate, flag_density };
+    let pat_huge = rng.chance(8);
+    let mut g = Gen { rng: &mut rng, zones, pages: vec![], frames: vec![], sizes, rec, pat4k, pat_huge, fail_rate, flag_density };
     let mut steps = Vec::with_capacity(len);
     for _ in 0..len {
         let op = g.rng.weighted(&wts);
